@@ -77,7 +77,9 @@ Definition digits_value (ds : bytes) : Z :=
   fold_left (fun acc c => acc * 10 + Z.of_N (c - 48)) ds 0.
 
 Definition read_integer (s : bytes) : res (Z * bytes) :=
-  let '(neg, s1) := match s with 45%N :: r => (true, r) | _ => (false, s) end in
+  let '(neg, s1) := match s with
+                    | c :: r => if (c =? 45)%N then (true, r) else (false, s)
+                    | [] => (false, s) end in
   match read_digits_until 101%N s1 [] with
   | None => Err DBdecode
   | Some (ds, rest) =>
